@@ -34,6 +34,61 @@ pub mod unit_ess {
         &&& forall |lag: int, j: int| 0 <= lag < n && 0 <= j < d ==> (#[trigger] out[lag][j]) == fl(acov(colv(data, j), lag))
     }
 
+    // ---- C12 corollary: affine rescaling x -> a x + b (real arithmetic) ----------------------------------------
+    pub proof fn lemma_rsum_affine(s: Seq<Fl>, t: Seq<Fl>, a: real, b: real, k: int)
+        requires k >= 0, forall |i: int| 0 <= i < k ==> rv(#[trigger] t[i]) == a * rv(s[i]) + b
+        ensures rsum(t, k) == a * rsum(s, k) + b * (k as real)
+        decreases k
+    {
+        if k > 0 {
+            lemma_rsum_affine(s, t, a, b, k - 1);
+            assert(rv(t[k - 1]) == a * rv(s[k - 1]) + b);
+            assert(a * rsum(s, k - 1) + b * ((k - 1) as real) + (a * rv(s[k - 1]) + b) == a * (rsum(s, k - 1) + rv(s[k - 1])) + b * (k as real)) by(nonlinear_arith);
+        } else {
+            assert(a * 0real + b * 0real == 0real) by(nonlinear_arith);
+        }
+    }
+    pub proof fn lemma_lagsum_affine(x: Seq<Fl>, y: Seq<Fl>, a: real, b: real, m: real, lag: int, k: int)
+        requires k >= 0, lag >= 0, forall |i: int| 0 <= i < k + lag ==> rv(#[trigger] y[i]) == a * rv(x[i]) + b
+        ensures lagsum(y, a * m + b, lag, k) == a * a * lagsum(x, m, lag, k)
+        decreases k
+    {
+        if k > 0 {
+            lemma_lagsum_affine(x, y, a, b, m, lag, k - 1);
+            let (p, q) = (rv(x[k - 1]), rv(x[k - 1 + lag]));
+            assert(rv(y[k - 1]) == a * p + b && rv(y[k - 1 + lag]) == a * q + b);
+            assert(((a * p + b) - (a * m + b)) * ((a * q + b) - (a * m + b)) == a * a * ((p - m) * (q - m))) by(nonlinear_arith);
+            assert(a * a * lagsum(x, m, lag, k - 1) + a * a * ((p - m) * (q - m)) == a * a * (lagsum(x, m, lag, k - 1) + (p - m) * (q - m))) by(nonlinear_arith);
+        } else {
+            assert(a * a * 0real == 0real) by(nonlinear_arith);
+        }
+    }
+    /// the autocovariance at every lag scales by a^2 under x -> a x + b
+    pub proof fn lemma_acov_affine(x: Seq<Fl>, y: Seq<Fl>, a: real, b: real, lag: int)
+        requires x.len() >= 1, y.len() == x.len(), 0 <= lag < x.len(), forall |i: int| 0 <= i < x.len() ==> rv(#[trigger] y[i]) == a * rv(x[i]) + b
+        ensures acov(y, lag) == a * a * acov(x, lag)      // [C12.autocovariance_scales_by_a_squared_under_affine_maps]
+    {
+        let n = x.len() as int;
+        let nr = n as real;
+        lemma_rsum_affine(x, y, a, b, n);
+        let sx = rsum(x, n);
+        assert((a * sx + b * nr) / nr == a * (sx / nr) + b) by(nonlinear_arith) requires nr >= 1real;
+        lemma_lagsum_affine(x, y, a, b, rmean(x), lag, n - lag);
+        let l = lagsum(x, rmean(x), lag, n - lag);
+        assert((a * a * l) / nr == a * a * (l / nr)) by(nonlinear_arith) requires nr >= 1real;
+    }
+    /// ... hence the autocorrelation estimate rho_t = 1 - (W - mean acov_t)/var+ (W, var+ and acov all scale by a^2), and with it
+    /// tau and the ESS, is unchanged
+    pub proof fn lemma_rho_affine(w: real, v: real, s: real, c: real, a: real)
+        requires a != 0real, v != 0real, c != 0real
+        ensures 1real - (a * a * w - (a * a * s) / c) / (a * a * v) == 1real - (w - s / c) / v      // [C12.rho_unchanged_by_affine_rescaling]
+    {
+        assert(a * a != 0real) by(nonlinear_arith) requires a != 0real;
+        assert((a * a * s) / c == a * a * (s / c)) by(nonlinear_arith) requires c != 0real;
+        assert(a * a * w - a * a * (s / c) == a * a * (w - s / c)) by(nonlinear_arith);
+        assert((a * a * (w - s / c)) / (a * a * v) == (w - s / c) / v) by(nonlinear_arith) requires a * a != 0real, v != 0real;
+    }
+
     /// ASSUMED (not decided): the FFT path computes the same autocovariance as the brute-force path
     /// (needs a contract for rustfft and the circular-convolution theorem)
     #[verifier::external_body]
